@@ -38,7 +38,7 @@ def eval_case(case):
         R[k] = R.get(k, 0) + n
 
     with common.Scratch("cv11") as sc:
-        pr = statecheck.std_project(sc.root, rich_outputs=True, disable_git=not case["git"])
+        pr = statecheck.std_project(sc.root, rich_outputs=True, disable_git=not case["git"], hostile=case.get("hostile"))
         if case["dangling"]:
             pr.scripts["//a:e2"]["steps"].insert(0, ["symlink", "dangling", "no/such/target"])
             pr.write_scn()
@@ -162,6 +162,16 @@ def eval_case(case):
         # ---- restore
         if case["into"] == "clean":
             c = pr.cond(["clean", "-f"], timeout=60)
+            co = os.path.join(pr.root, "cond-out")
+            if os.path.islink(co) and os.listdir(os.path.realpath(co)):
+                # observation outside C11: `cond clean` silently removes nothing when cond-out is a symbolic
+                # link (rmtree refuses links, errors are ignored); empty the storage by hand so that the
+                # project really "lacks those versions"
+                out["reach"]["c11_clean_was_a_noop_on_symlinked_cond_out"] = 1
+                real = os.path.realpath(co)
+                for x in os.listdir(real):
+                    px = os.path.join(real, x)
+                    shutil.rmtree(px) if os.path.isdir(px) and not os.path.islink(px) else os.unlink(px)
             dest = pr
         else:
             dest = statecheck.std_project(sc.sub("clone"), name="q")
@@ -293,7 +303,7 @@ def main(tier, n=None):
     for i in range(total):
         cases.append({"seed": rng.randrange(1 << 30), "nruns": rng.randint(1, 4), "task": rng.choice([None, None, "//:g", "//:dd", "//a/b:e3", "//:k", "//c-d:e4", "//:d1", "//a:c1", "//c-d:solo", "//:plain"]),
                       "latest": rng.random() < 0.4, "out": rng.choice(["file", "dir", "default"]), "into": rng.choice(["clean", "clone"]), "git": rng.random() < 0.4,
-                      "dangling": rng.random() < 0.25, "foreign": rng.random() < 0.35, "stale_archive_index": rng.random() < 0.3, "branch_switch": rng.random() < 0.4, "killed_restore_first": rng.random() < 0.25})
+                      "dangling": rng.random() < 0.25, "foreign": rng.random() < 0.35, "stale_archive_index": rng.random() < 0.3, "branch_switch": rng.random() < 0.4, "killed_restore_first": rng.random() < 0.25, "hostile": realrun.hostile_choice(rng)})
     cli.warm()
     res = common.parallel_map(eval_case, cases, timeout=900)
     rep.merge_pool(res, cases)
